@@ -86,6 +86,8 @@ type Scenario struct {
 	NoOutside  bool `json:"nooutside"`  // no ext writes
 	NoPreempt  bool `json:"nopreempt"`  // no instance has takeover enabled
 	FaultFree  bool `json:"faultfree"`  // all of the above + healthy + no connection events + no watch failures
+	MaxLat     time.Duration `json:"maxlat"`    // promised bound on the latency of every answered operation (0 = no promise)
+	FaultsEnd  time.Duration `json:"faultsend"` // no injected fault, partition or lost watch event after this instant (0 = there are none at all)
 	ConnOnly   bool `json:"connonly"`   // the only disturbances are connection notifications (store responsive, no outside writer, healthy)
 }
 
@@ -177,6 +179,9 @@ func (h scriptedHealth) Check(ctx context.Context) bool {
 	}
 	if r == 2 {
 		time.Sleep(50 * time.Millisecond)
+	}
+	if r == 3 {
+		time.Sleep(95 * time.Millisecond)
 	}
 	res := 1
 	if r == 0 {
@@ -322,7 +327,7 @@ func runScenario(t *testing.T, sc *Scenario) *ScenarioResult {
 			}
 			return 0
 		}
-		tr.headerf("hyp %d %d %d %d %d", b2i(sc.Responsive), b2i(sc.NoOutside), b2i(sc.NoPreempt), b2i(sc.FaultFree), b2i(sc.ConnOnly))
+		tr.headerf("hyp %d %d %d %d %d %d %d", b2i(sc.Responsive), b2i(sc.NoOutside), b2i(sc.NoPreempt), b2i(sc.FaultFree), b2i(sc.ConnOnly), int64(sc.MaxLat), int64(sc.FaultsEnd))
 		var apiSeq int32
 		var wg sync.WaitGroup
 		steps := append([]Step(nil), sc.Steps...)
@@ -450,6 +455,16 @@ func registerCallbacks(rt *instRT) {
 			done = 1
 		}
 		tr.logf("promote %d %d %d %d", id, tr.tok(token), cid, done)
+		if rt.spec.Promote == "sleep" {
+			// a callback that ignores its context for a while
+			go func() {
+				<-ctx.Done()
+				tr.logf("ctxdone %d %d", id, cid)
+			}()
+			time.Sleep(3 * time.Second)
+			tr.logf("promote-ret %d %d", id, cid)
+			return
+		}
 		if rt.spec.Promote == "block" {
 			<-ctx.Done()
 			tr.logf("ctxdone %d %d", id, cid)
@@ -572,7 +587,7 @@ func execStep(tr *Trace, store *RefStore, rts map[int]*instRT, st Step, apiSeq *
 		})
 	case "crash":
 		store.mu.Lock()
-		store.cut[st.Inst] = true
+		store.dead[st.Inst] = true
 		store.mu.Unlock()
 		tr.logf("crash %d", st.Inst)
 	case "partition":
